@@ -754,7 +754,8 @@ def inline_module_helpers(repo, rel, func, depth=2, methods=False, keep=()):
                 k.arg is None for k in call.keywords):
             return None
         if not any(isinstance(n, ast.Return) and n.value is not None
-                   for n in walk(h)):
+                   for n in walk(h)) and not getattr(call, "_as_stmt",
+                                                     False):
             return None
         return h, skip_self
 
@@ -787,7 +788,10 @@ def inline_module_helpers(repo, rel, func, depth=2, methods=False, keep=()):
         retname = "ret" + tag
         single = len([n for n in walk(h) if isinstance(n, ast.Return)]) == 1 \
             and isinstance(h.body[-1], ast.Return)
-        if single:
+        if not any(isinstance(n, ast.Return) for n in walk(h)):
+            # a procedure called as a statement
+            stmts, ret = hb, ast.Constant(value=None)
+        elif single:
             stmts, ret = hb[:-1], hb[-1].value
         else:
             r = _eliminate_returns(hb, retname)
@@ -849,6 +853,8 @@ def inline_module_helpers(repo, rel, func, depth=2, methods=False, keep=()):
                 part = "value"
             elif isinstance(st, ast.If):
                 part = "test"
+            if isinstance(st, ast.Expr) and isinstance(st.value, ast.Call):
+                st.value._as_stmt = True
             if part is not None and level < depth:
                 pre = []
 
@@ -885,6 +891,9 @@ def inline_module_helpers(repo, rel, func, depth=2, methods=False, keep=()):
                         if not hasattr(x, "lineno") or True:
                             ast.copy_location(x, st)
                 out.extend(pre)
+                if pre and isinstance(st, ast.Expr) and isinstance(
+                        st.value, ast.Constant):
+                    continue        # the inlined procedure call itself
                 if pre and isinstance(st, ast.Assign) and len(
                         st.targets) == 1 and isinstance(
                         st.targets[0], ast.Tuple) and isinstance(
